@@ -280,6 +280,17 @@ pub fn strings(p: &N, seed: u64) -> Vec<String> {
     v.retain(|s| seen.insert(s.clone()));
     v
 }
+/// index -> (character, string built around it); None for surrogate code points
+fn every_char_string(i: u64) -> Option<(char, String)> {
+    let c = char::from_u32((i / 4) as u32)?;
+    let s = match i % 4 {
+        0 => c.to_string(),
+        1 => format!("1{}2", c),
+        2 => format!("{}7", c),
+        _ => format!("340282366920938463463374607431768211456{}", c),
+    };
+    Some((c, s))
+}
 const SHORT_ALPHABET: [char; 14] = ['0', '1', '9', '+', '-', ' ', '.', 'a', 'x', '\0', '٣', '３', '😀', 'é'];
 fn short_string(mut i: u64) -> String {
     // all strings of length 0..=3: index 0 = "", then length 1, 2, 3
@@ -357,6 +368,19 @@ fn field<F: FpApi>(run: &Run) {
             Ok(Tally::new(1, true, if dig { 1 } else { 2 }))
         },
         |i| json!({"op": "c13.str", "field": F::NAME, "s": ss[i as usize]}),
+    );
+    // EVERY Unicode scalar value, alone, between digits, leading and trailing: the quantifier "any other character"
+    // is decided exhaustively over the character set (parsers that narrow a char to u8/u16 alias digits)
+    run.grid(
+        Spec { name: &format!("c13.{}.from_str.every-char", F::NAME), n: 0x110000 * 4, classes: &["digit", "non-digit"], required: &["digit", "non-digit"] },
+        |i| match every_char_string(i) {
+            None => Ok(Tally::new(0, false, 0)),
+            Some((c, s)) => {
+                str_case::<F>(&s)?;
+                Ok(Tally::new(1, true, if c.is_ascii_digit() { 1 } else { 2 }))
+            }
+        },
+        |i| json!({"op": "c13.str", "field": F::NAME, "s": every_char_string(i).map(|x| x.1).unwrap_or_default()}),
     );
     let nshort: u64 = 1 + 14 + 14 * 14 + 14 * 14 * 14 + if thorough { 14u64.pow(4) } else { 0 };
     run.grid(
